@@ -129,3 +129,24 @@ where
         Ok(())
     }
 }
+
+#[cfg(feature = "verif")]
+impl<I, T, S> ReadWriteRawVec<I, T, S>
+where
+    I: VecIndex,
+    T: VecValue,
+    S: RawStrategy<T>,
+{
+    pub(crate) fn verif_parse_raw_change(bytes: &[u8]) -> Result<crate::verif::ChangeSummary> {
+        let d = Self::parse_raw_change_data(bytes)?;
+        Ok(crate::verif::ChangeSummary {
+            prev_stamp: u64::from(d.base.prev_stamp),
+            prev_stored_len: d.base.prev_stored_len,
+            truncated_start: d.base.truncated_start,
+            truncated_values: d.base.truncated_values.len(),
+            prev_pushed: d.base.prev_pushed.len(),
+            modifications: d.modifications.len(),
+            prev_holes: d.prev_holes.len(),
+        })
+    }
+}
